@@ -65,6 +65,7 @@ class DeadCodeEliminate_apply(Contract):
     native_universe = 'spec.c07_ref:key_universe'
     native_demo = 'spec.c07_ref:demo'
     options = {
+        'feas_ms': 40, 'split_heavy': True,     # quantified facts: a satisfiable feasibility check only ever times out (unknown = feasible)
         'key_attrs': 'spec.c07:KEY_ATTRS',
         'local_types': {'unused_assign': 'set[Key[DefSite]]', 'unused_fv': 'set[NamedId]', 'unused_phi': 'set[Key[Definition]]'},
         'loop_modifies': {0: ['unused_assign', 'unused_fv', 'unused_phi'], 1: ['unused_assign']},
